@@ -637,3 +637,35 @@ func refStr(r Ref) string {
 	}
 	return fmt.Sprintf("%T", r)
 }
+
+// refIdent gives a stable identity string for a reference (used in merge keys).
+func refIdent(r Ref) string {
+	switch x := r.(type) {
+	case NilRef:
+		return "nil"
+	case *Cell:
+		return fmt.Sprintf("c%p", x)
+	case *MapObj:
+		return fmt.Sprintf("m%d", x.Obj.ID)
+	case *ChanObj:
+		return fmt.Sprintf("ch%d", x.Obj.ID)
+	case *CtxObj:
+		return fmt.Sprintf("cx%d", x.Obj.ID)
+	case *TypeRef:
+		return "t" + x.T.String()
+	case *FuncVal:
+		if x.Fn != nil {
+			return fmt.Sprintf("f%p", x.Fn)
+		}
+		return "fm" + x.Model
+	case *IfaceVal:
+		s := "i(" + types.TypeString(x.T, nil) + ":"
+		if rv, ok := x.V.(*RefV); ok {
+			for _, a := range rv.Alts {
+				s += refIdent(a.R) + ","
+			}
+		}
+		return s + ")"
+	}
+	return fmt.Sprintf("%T", r)
+}
